@@ -56,10 +56,14 @@ class Binding(object):
     def cls(self):
         raise NotImplementedError
 
+    # specification seed ids -> real seeds; id 1 is the falsy seed 0 on purpose (a model seeded with 0 is seeded)
+    REAL_SEED = {1: 0, 2: 7, 3: 12345}
+
     def seed_arg(self, seed, form):
         if not seed:
             return None
-        return int(seed) if form == 'int' else np.random.RandomState(int(seed))
+        real = self.REAL_SEED.get(int(seed), int(seed))
+        return real if form == 'int' else np.random.RandomState(real)
 
     newform = 'ctor'            # 'ctor' | 'class' | 'name': how New builds the object (get_instance forms)
 
@@ -267,6 +271,9 @@ def bi_data(d):
             rs = np.random.RandomState(22)
             z = rs.normal(size=(25, 2))
             z[:, 1] = 0.7 * z[:, 0] + 0.7 * z[:, 1]
+        elif d == 'M':                      # perfectly concordant: Kendall tau = 1 (Clayton theta = inf, an edge parameter)
+            rs = np.random.RandomState(23)
+            z = rs.normal(size=(12, 1)).repeat(2, axis=1)
         else:
             raise KeyError(d)
         n = len(z)
@@ -290,6 +297,8 @@ class BiBinding(Binding):
     def __init__(self, clsname):
         self.clsname = clsname
         self.name = clsname
+        if clsname == 'Clayton':
+            self.valid = ('A', 'B', 'M')
 
     def cls(self):
         import copulas.bivariate as b
